@@ -94,6 +94,7 @@ func genC17two(tier string, r *core.Rand) Scenario {
 // checkStatus is the well-formedness oracle over the Status history of one station.
 func checkStatus(sim *core.Sim, prop string, st *stationRT, sentOK, recvOK []string) (reports int) {
 	evs := st.status.Events()
+	sentAll := append(append([]string{}, sentOK...), st.order...)
 	type key struct {
 		mid string
 		dir string
@@ -112,6 +113,14 @@ func checkStatus(sim *core.Sim, prop string, st *stationRT, sentOK, recvOK []str
 		}
 		if e.Sending != "" && e.Receiving != "" {
 			sim.Violate(prop, "status", "names-two-messages", "%s: a status report names both %s and %s", st.name, e.Sending, e.Receiving)
+		}
+		// "names that message": as one being sent only if this station sent it,
+		// as one being received only if it received it
+		if e.Sending != "" && !inList(sentAll, e.Sending) && inList(recvOK, e.Sending) {
+			sim.Violate(prop, "status", "received-message-reported-as-sending", "%s: a report names %s as the message being sent; this station is receiving it", st.name, e.Sending)
+		}
+		if e.Receiving != "" && !inList(recvOK, e.Receiving) && inList(sentAll, e.Receiving) {
+			sim.Violate(prop, "status", "sent-message-reported-as-receiving", "%s: a report names %s as the message being received; this station is sending it", st.name, e.Receiving)
 		}
 		seen[k]++
 		if done[k] > 0 {
@@ -241,4 +250,13 @@ func execC17peer(t *testing.T, prop string, pp PeerPlan, trace bool) core.Outcom
 		out.Violate(prop, "status", "reporter-goroutine-left-blocked", "a goroutine started by the session was still blocked 2 simulated seconds after Exchange returned")
 	}
 	return out
+}
+
+func inList(l []string, s string) bool {
+	for _, x := range l {
+		if x == s {
+			return true
+		}
+	}
+	return false
 }
